@@ -63,26 +63,8 @@ func CheckClient(p Params, calls []Call) (string, Stats) {
 			}
 		}
 	}
-	// B1: every pair i <= j of admissions. Burst: admissions at one single instant <= max.
-	for i := range adm {
-		for j := i; j < len(adm); j++ {
-			n := j - i + 1
-			span := adm[j] - adm[i]
-			if span == 0 {
-				if n > p.Max {
-					return fmt.Sprintf("B1 burst: %d requests admitted at one instant (t=%v), max_tokens is %d", n, adm[i], p.Max), st
-				}
-				continue
-			}
-			bound := p.Max + int(span/p.R) + 1
-			if n > bound {
-				return fmt.Sprintf("B1 window: %d requests admitted in the interval [%v,%v] of length T=%v, bound max_tokens+floor(T/refill)+1 = %d+%d+1 = %d",
-					n, adm[i], adm[j], span, p.Max, int(span/p.R), bound), st
-			}
-			if bound-n < st.MaxWindowSlack {
-				st.MaxWindowSlack = bound - n
-			}
-		}
+	if v := checkB1(p, adm, "admitted", &st); v != "" {
+		return v, st
 	}
 	// B2: the calls a never-seen client makes at its first instant: the first max of them are admitted.
 	n0 := 0
@@ -124,6 +106,46 @@ func CheckClient(p Params, calls []Call) (string, Stats) {
 		}
 	}
 	return "", st
+}
+
+// checkB1 is the upper bound of the statement over the instants at which something happened to one
+// client's requests (what = "admitted" / "forwarded to a backend"): at most max at one instant, and for
+// every pair i <= j at most max + floor(T/refill) + 1 in the interval they span.
+func checkB1(p Params, adm []time.Duration, what string, st *Stats) string {
+	for i := range adm {
+		for j := i; j < len(adm); j++ {
+			n := j - i + 1
+			span := adm[j] - adm[i]
+			if span == 0 {
+				if n > p.Max {
+					return fmt.Sprintf("B1 burst: %d requests %s at one instant (t=%v), max_tokens is %d", n, what, adm[i], p.Max)
+				}
+				continue
+			}
+			bound := p.Max + int(span/p.R) + 1
+			if n > bound {
+				return fmt.Sprintf("B1 window: %d requests %s in the interval [%v,%v] of length T=%v, bound max_tokens+floor(T/refill)+1 = %d+%d+1 = %d",
+					n, what, adm[i], adm[j], span, p.Max, int(span/p.R), bound)
+			}
+			if st != nil && bound-n < st.MaxWindowSlack {
+				st.MaxWindowSlack = bound - n
+			}
+		}
+	}
+	return ""
+}
+
+// CheckForwarded applies the upper bound B1 alone to the instants at which one client's requests
+// reached a backend (times must be monotone): a request that is forwarded was admitted, so the
+// forwarded requests of a client obey the same burst and window bound as its admissions, whatever
+// the backend does with them afterwards. The lower bounds B2/B3 say nothing about forwarding.
+func CheckForwarded(p Params, at []time.Duration) string {
+	for i := 1; i < len(at); i++ {
+		if at[i] < at[i-1] {
+			return "harness: forward times not monotone"
+		}
+	}
+	return checkB1(p, at, "forwarded to a backend", nil)
 }
 
 // ---------------------------------------------------------------------------------------------
